@@ -29,6 +29,10 @@ fn dispatch(req: &Value) -> Value {
         // tree level
         "apply_tree" => ops_tree::apply_tree(req),
         "scan_tree" => ops_tree::scan_tree(req),
+        "simple_plan_tree" => ops_tree::simple_plan_tree(req),
+        "render_diff" => ops_tree::render_diff(req),
+        "find_matches" => ops_plan::find_matches(req),
+        "is_boundary" => ops_plan::is_boundary(req),
         // clap
         "clap_dump" => ops_cli::clap_dump(req),
         "clap_parse" => ops_cli::clap_parse(req),
